@@ -121,7 +121,15 @@ func Interval(interval time.Duration) Observable[int64] {
 // Play: https://go.dev/play/p/Xhi6c336ldy
 func IntervalWithInitial(initial, interval time.Duration) Observable[int64] {
 	return NewObservableWithContext(func(ctx context.Context, destination Observer[int64]) Teardown {
-		ticker := time.NewTicker(initial * 2)
+		// The ticker only matters once the initial delay has elapsed (it is reset to `interval`
+		// then); until that it must not fire first, hence twice the initial delay. A zero initial
+		// delay would make that period zero, which time.NewTicker rejects.
+		tickerPeriod := initial * 2
+		if initial == 0 {
+			tickerPeriod = interval
+		}
+
+		ticker := time.NewTicker(tickerPeriod)
 		timer := time.NewTimer(initial)
 		done := make(chan struct{}, 1)
 
